@@ -25,6 +25,7 @@ func main() {
 		for _, l := range e.Logs.Take() {
 			fmt.Println("    log:", l)
 		}
+		fmt.Printf("    posix locks: db=%d shm=%d\n", histlib.PosixLocksOn(e.DBPath), histlib.PosixLocksOn(e.DBPath+"-shm"))
 		w := histlib.ScanWAL(e.DBPath + "-wal")
 		fi, _ := os.Stat(e.DBPath)
 		var sz int64
